@@ -58,11 +58,12 @@ const (
 	KFLt
 	KFLe
 	KFEq
+	KFFromBits // reinterpret 32/64-bit integer as IEEE float (widened to float64)
 )
 
 var kindNames = [...]string{"const", "var", "add", "sub", "mul", "udiv", "urem", "sdiv", "srem", "and", "or", "xor", "shl", "lshr", "ashr", "not", "neg", "zext", "sext", "trunc", "ite",
 	"eq", "ult", "ule", "slt", "sle", "band", "bor", "bnot",
-	"ffromu", "ffroms", "fadd", "fsub", "fmul", "fdiv", "fneg", "fceil", "ftou", "ftos", "flt", "fle", "feq"}
+	"ffromu", "ffroms", "fadd", "fsub", "fmul", "fdiv", "fneg", "fceil", "ftou", "ftos", "flt", "fle", "feq", "ffrombits"}
 
 type Sort uint8
 
@@ -873,6 +874,17 @@ func (tb *TB) FFromInt(a *Term, signed bool) *Term {
 		return tb.fmk(KFFromS, a, nil)
 	}
 	return tb.fmk(KFFromU, a, nil)
+}
+
+// FFromBits reinterprets a 32- or 64-bit integer as a float (as float64).
+func (tb *TB) FFromBits(a *Term) *Term {
+	if a.IsConst() {
+		if a.W == 32 {
+			return tb.FConst(float64(math.Float32frombits(uint32(a.V))))
+		}
+		return tb.FConst(math.Float64frombits(a.V))
+	}
+	return tb.fmk(KFFromBits, a, nil)
 }
 
 func (tb *TB) FBin(k Kind, a, b *Term) *Term {
